@@ -434,8 +434,8 @@ def one_case(sh, case_seed, tracer):
                 c.default = None
     tnames = {t.name for t in doc.tables}
     for e in doc.enums:
-        if e.name in tnames:
-            e.name = e.name + 'enq'       # one owner per name token (an enum may be called like a table; not in this check)
+        if e.name.split('.')[0] in tnames:
+            e.name = 'enq' + e.name       # one owner per name token (an enum may be called like a table; not in this check)
     seen_sn = set()
     for st in doc.stickies:
         if st.name in seen_sn:
